@@ -1,7 +1,7 @@
 #!/bin/sh
 # usage: tools/reseed_all.sh [glob]  — regression: re-runs every stored seeded change (seeded/<id>/patch.diff) against
 # the current quick check of its property (or of the sibling property named by "caught_by_property" in meta.json, for changes
-# that live in another property's code) and prints CAUGHT/MISSED per change. Expected MISSED: C07c, C07i, C07r, C10r, C15w, C10w, C11w,
+# that live in another property's code) and prints CAUGHT/MISSED per change. Expected MISSED: C07c, C07i, C07r, C07v, C10r, C15w, C10w, C11w,
 # C14w, C16w (do not break the property as stated / outside its histories) and C07m (pre-1.23 timer semantics, simulator limit), see DESIGN.md
 V=${VERIF_DIR:-/verif}; cd $V
 for d in seeded/${1:-*}; do
